@@ -43,6 +43,9 @@ def parseOp (kind : Kind) : Sexp → Option Op
   | .list [.atom "cnt", k] => do pure (.cnt (← bytes? k))
   | .list [.atom "cnt"] => some .cntAll
   | .list [.atom "items"] => some .items
+  | .list [.atom "itemstop", t] => do pure (.itemsTop (← bytes? t))
+  | .list [.atom "fullitems", t] => do pure (.fullItems (← bytes? t))
+  | .list [.atom "trim", t] => do pure (.trim (← bytes? t))
   | _ => none
 
 def c24 (kind : Kind) (fs : List Sexp) : Option Sexp := do
@@ -54,22 +57,21 @@ def c24 (kind : Kind) (fs : List Sexp) : Option Sexp := do
 
 /-! ### C23 -/
 
-def parseVal : Sexp → Option Bytes
-  | .list [_, b] => bytes? b
+def parseArg : Sexp → Option Arg
+  | .list [_, b] => do pure (.ok (← bytes? b))
+  | .atom "none" => some .none
+  | .atom "junk" => some .junk
   | _ => none
 
-inductive MOp where
-  | q (i : Nat) (o : QOp)
-  | reopen
-
-def parseQOp : Sexp → Option MOp
-  | .list [.atom "push", i, v] => do pure (.q (← nat? i) (.push (← parseVal v)))
-  | .list [.atom "remove", i, v] => do pure (.q (← nat? i) (.remove (← parseVal v)))
-  | .list [.atom "count", i, v] => do pure (.q (← nat? i) (.count (← parseVal v)))
-  | .list [.atom "extend", i, .list vs] => do pure (.q (← nat? i) (.extend (← vs.mapM parseVal)))
-  | .list [.atom "pull", i] => do pure (.q (← nat? i) (.pull true))
-  | .list [.atom "pullx", i] => do pure (.q (← nat? i) (.pull false))
-  | .list [.atom "clear", i] => do pure (.q (← nat? i) .clear)
+/-- ops address queues by index into the key list; arguments arrive as called (possibly None / a foreign object) -/
+def parseQOp (keys : List Bytes) : Sexp → Option MOp
+  | .list [.atom "push", i, v] => do pure (.a (← keys[(← nat? i)]?) (.push (← parseArg v)))
+  | .list [.atom "remove", i, v] => do pure (.a (← keys[(← nat? i)]?) (.remove (← parseArg v)))
+  | .list [.atom "count", i, v] => do pure (.a (← keys[(← nat? i)]?) (.count (← parseArg v)))
+  | .list [.atom "extend", i, .list vs] => do pure (.a (← keys[(← nat? i)]?) (.extend (← vs.mapM parseArg)))
+  | .list [.atom "pull", i] => do pure (.a (← keys[(← nat? i)]?) (.pull true))
+  | .list [.atom "pullx", i] => do pure (.a (← keys[(← nat? i)]?) (.pull false))
+  | .list [.atom "clear", i] => do pure (.a (← keys[(← nat? i)]?) .clear)
   | .list [.atom "reopen"] => some .reopen
   | _ => none
 
@@ -84,45 +86,19 @@ def outDur : Except Exn (List Bytes) → Sexp
   | .ok vs => .list (vs.map ofBytes)
   | .error e => outRaise e
 
-/-- inject a fresh queue at every key, in order; a failing inject keeps the old object -/
-def injectAll (cls : Bytes → Nat) (kind : QKind) : List Bytes → List Q → Db → Db × List Q × Option Exn
-  | [], _, db => (db, [], none)
-  | k :: ks, olds, db =>
-    let old := olds.headD ⟨[], true⟩
-    match inject cls kind k db with
-    | (db', .ok q) => let (db'', qs, e) := injectAll cls kind ks olds.tail db'; (db'', q :: qs, e)
-    | (db', .error x) => (db', old :: olds.tail, some x)
-
-def setAt (qs : List Q) (i : Nat) (q : Q) : List Q := qs.set i q
-
-def observeAll (keys : List Bytes) (qs : List Q) (db : Db) : Sexp :=
-  .list ((keys.zip qs).map fun (k, q) => .list [.list (q.mem.map ofBytes), outDur (durable db k)])
-
-def mrun (cls : Bytes → Nat) (kind : QKind) (keys : List Bytes) : Db → List Q → List MOp → List Sexp
-  | _, _, [] => []
-  | db, qs, .reopen :: os =>
-    let (db', qs', e) := injectAll cls kind keys qs db
-    let r := match e with | none => ofBool true | some x => outRaise x
-    .list [r, observeAll keys qs' db'] :: mrun cls kind keys db' qs' os
-  | db, qs, .q i o :: os =>
-    match keys[i]?, qs[i]? with
-    | some k, some q =>
-      let (db', q', r) := qstep cls kind k db q o
-      let qs' := setAt qs i q'
-      .list [outQRes r, observeAll keys qs' db'] :: mrun cls kind keys db' qs' os
-    | _, _ => [sym "bad-queue-index"]
-
 def c23 (kind : QKind) (fs : List Sexp) : Option Sexp := do
   let keys ← bytesL (← field "keys" fs)
   let table ← (← field "table" fs).mapM fun
     | .list [e, b] => do pure ((← nat? e), (← bytes? b))
     | _ => none
-  let ops ← (← field "ops" fs).mapM parseQOp
+  let ops ← (← field "ops" fs).mapM (parseQOp keys)
   let cls : Bytes → Nat := fun b => match table.find? (fun p => p.2 == b) with
     | some p => p.1
     | none => 1000000 + b.length
-  let (db0, qs0, _) := injectAll cls kind keys [] []
-  some (.list (mrun cls kind keys db0 qs0 ops))
+  -- building the Hold injects a fresh queue at every key of the (empty) store
+  let (db0, ms0, _) := injectAll cls kind keys [] (fun _ => ⟨[], true⟩)
+  let out := mrun cls kind keys db0 ms0 ops
+  some (.list (out.map fun (r, obs) => Sexp.list [outQRes r, .list (obs.map fun (m, d) => Sexp.list [.list (m.map ofBytes), outDur d])]))
 
 def handle : Sexp → Sexp
   | .list (.atom "plain" :: fs) => (c24 .plain fs).getD (sym "bad-request")
